@@ -72,6 +72,27 @@ func assetTol(pre, post *Snap, denom string) *big.Rat {
 	return t.Add(t, big.NewRat(2, 1))
 }
 
+// roundTripRegime quantifies, in delegator shares of validator d.V, how far the module's
+// tokens -> shares conversion can be off: its token-value uncertainty (assetTol - 2)
+// times the validator's shares-per-token ratio (which take-rate deductions push above
+// 1). Once this exceeds the module's 0.01-share "Rounder" margin the reported balance
+// is not reliably withdrawable (listed finding F-C20c).
+func roundTripRegime(s *Snap, d DelSnap) *big.Rat {
+	r := new(big.Rat).Sub(assetTol(s, s, d.Denom), big.NewRat(2, 1))
+	if d.V < 0 {
+		return r
+	}
+	vt := s.ValTokens(d.V, d.Denom)
+	tds, ok := s.Vals[d.V].DelShares[d.Denom]
+	if ok && vt.Sign() > 0 {
+		spt := new(big.Rat).Quo(decRat(tds), vt)
+		if spt.Cmp(big.NewRat(1, 1)) > 0 {
+			r.Mul(r, spt)
+		}
+	}
+	return r
+}
+
 // degenerateAsset: staked total > 0 but no validator shares at all — the state left by
 // a 100% slash of every validator holding the asset's shares (listed finding F-C04a).
 func degenerateAsset(s *Snap, denom string) bool {
@@ -259,7 +280,7 @@ func (OracleC04) sumBound(x *Exec, s *Snap, denom string) {
 	}
 	bound := new(big.Rat).SetInt(a.TotalTokens.BigInt())
 	bound.Add(bound, big.NewRat(int64(n), 1))
-	bound.Add(bound, tolFor(a.TotalTokens.BigInt()))
+	bound.Add(bound, assetTol(s, s, denom))
 	if new(big.Rat).SetInt(sum).Cmp(bound) > 0 {
 		x.Fail("C04", "sum-bound", "reported values of the %d positions in %s sum to %s > staked total %s + one unit per position + tolerance", n, denom, sum, a.TotalTokens)
 	}
